@@ -113,6 +113,15 @@ func (e *Exec) patternIntrinsicHarness(fn *ssa.Function, name string) Intrinsic 
 			name := e.nameArg(args[0])
 			return ret1(st, SymStr{ID: e.TS.Var("str:"+name, SInt)})
 		}
+	case "vNondetAddr":
+		// an arbitrary account address (as a string) out of four distinct valid addresses
+		return func(e *Exec, st *State, fn *ssa.Function, args []Value, depth int) []Outcome {
+			name := e.nameArg(args[0])
+			if c, ok := e.Concrete["addr:"+name]; ok {
+				return ret1(st, SymStr{ID: e.TS.Int(c)})
+			}
+			return ret1(st, SymStr{ID: e.TS.BoundedVar("addr:"+name, big.NewInt(1000000), big.NewInt(1000003))})
+		}
 	case "vNondetTime":
 		return func(e *Exec, st *State, fn *ssa.Function, args []Value, depth int) []Outcome {
 			return ret1(st, e.nondetInt(e.nameArg(args[0]), nil, nil))
